@@ -176,8 +176,14 @@ def concrete_check(native, inputs, shape):
         if failed:
             break
     if inputs.get('has_seed') and not failed:
-        if native_outputs(native, shape, inputs) != native_outputs(native, shape, inputs):
-            failed.append('with a seed, no randomness comes from an unseeded generator')
+        # the same seed must give the same batches: repeat the run, also with a configuration in which the order of the
+        # items is fully visible (one item per batch, everything prefetched)
+        probe = dict(inputs, limit=1, prefetch=8)
+        for cfg in (inputs, probe):
+            first = native_outputs(native, shape, cfg)
+            if any(native_outputs(native, shape, cfg) != first for _ in range(6)):
+                failed.append('with a seed, no randomness comes from an unseeded generator')
+                break
     return sorted(set(failed))
 
 
